@@ -456,6 +456,17 @@ pub fn expect_tag(exp: &mut Expected, p: &str, region: &[u8], it: &Item, kind: u
                 }
                 exp.is(k("e.end"), Val::None);
                 exp.u(k("e.len_end"), 0);
+                let mut ks = vec![0, n / 2, n, n + 1];
+                ks.dedup();
+                for kk in ks {
+                    let key = format!("{p}.e.nth{kk}");
+                    if kk < n {
+                        exp.is(key.clone(), Val::Ext(off + 16 + kk * d, 40));
+                    } else {
+                        exp.is(key.clone(), Val::None);
+                    }
+                    exp.u(format!("{key}.len"), n.saturating_sub(kk + 1) as u64);
+                }
             } else {
                 exp.free(format!("{p}.e"));
             }
